@@ -649,6 +649,17 @@ func runTypeCopy(t *core.Tape, st *core.Stats) *core.Violation {
 		other := 1 - k
 		snap := text(pair[other])
 
+		// what the other type makes must not change either
+		fresh := func() (string, *core.Panic) {
+			var o string
+
+			p := core.Call(func() { o = world.Observe(pair[other].New()).String(false) })
+
+			return o, p
+		}
+
+		madeBefore, pb := fresh()
+
 		var desc string
 
 		p := core.Call(func() {
@@ -690,6 +701,19 @@ func runTypeCopy(t *core.Tape, st *core.Stats) *core.Violation {
 
 		if now := text(pair[other]); now != snap {
 			return viol(p18, "independent", "Type.Copy", "type-edit", "%s on the %s changed the %s\n    before: %s\n    after:  %s", desc, names[k], names[other], snap, now)
+		}
+
+		if pb == nil {
+			madeAfter, pa := fresh()
+			if pa != nil {
+				return viol(p18, "independent", "Type.Copy", "new-after-type-edit:"+pa.Class, "after %s on the %s, New() of the %s panics: %s", desc, names[k], names[other], pa.Value)
+			}
+
+			st.Inc("probe:new-of-the-other-type-after-a-type-edit")
+
+			if madeAfter != madeBefore {
+				return viol(p18, "independent", "Type.Copy", "new-after-type-edit", "%s on the %s changed what New() of the %s makes\n    before: %s\n    after:  %s", desc, names[k], names[other], madeBefore, madeAfter)
+			}
 		}
 	}
 
